@@ -255,4 +255,12 @@ inductive BenchEv where
   | integrate
 deriving DecidableEq, Repr
 
+/-- a value of the substitution dictionary of the analytic integrator: a propagator expression or a parameter value -/
+inductive SubV (U α : Type) where
+  | expr (u : U)
+  | val (a : α)
+
+/-- `d[k]` while iterating over `d.items()` (the value of the current item, unless it has been reassigned) -/
+def getU {U : Type} (d : List (String × U)) (k : String) (dflt : U) : U := (d.lookup k).getD dflt
+
 end OdeVerif.Glue
